@@ -170,17 +170,67 @@ pub fn analyse_opts(funcs: &[FunctionDump], fi: usize, ops: &OpTable, skip_final
             });
         }
     }
+    // while a catch block runs, a handler installed on its entry routes every exit from it to the finally
+    // target: a second region per statement with a catch block, covering that block
+    let guards: Vec<TryRegion> = regions
+        .iter()
+        .filter(|r| r.catch_target < r.finally_target)
+        .map(|r| TryRegion { push_pc: r.push_pc, body_start: r.catch_target, catch_target: r.finally_target, finally_target: r.finally_target, end: r.end })
+        .collect();
     let innermost = |pc: usize| -> Option<&TryRegion> {
         regions
             .iter()
+            .chain(guards.iter())
             .filter(|r| pc >= r.body_start && pc < r.catch_target)
             .max_by_key(|r| r.body_start)
     };
+    // Which handler does a JumpFinally pop?  A return (break, continue) that leaves several try statements
+    // is compiled as a chain - `JumpFinally JumpFinally .. Return`, or `Nil JumpFinally Pop` repeated - and
+    // the n-th JumpFinally of a chain runs after n finally blocks have finished: it pops the n-th
+    // enclosing handler, innermost first.
+    let prev_of: BTreeMap<usize, usize> = {
+        let pcs: Vec<usize> = instrs.keys().copied().collect();
+        pcs.windows(2).map(|w| (w[1], w[0])).collect()
+    };
+    let name_at = |pc: usize| -> &str { instrs.get(&pc).map(|i| i.name).unwrap_or("") };
+    let chain_index = |pc: usize| -> usize {
+        let mut idx = 0;
+        let mut cur = pc;
+        loop {
+            let Some(&p1) = prev_of.get(&cur) else { break };
+            if name_at(p1) == "JumpFinally" {
+                idx += 1;
+                cur = p1;
+                continue;
+            }
+            if name_at(p1) == "Nil" {
+                if let Some(&p2) = prev_of.get(&p1) {
+                    if name_at(p2) == "Pop" {
+                        if let Some(&p3) = prev_of.get(&p2) {
+                            if name_at(p3) == "JumpFinally" {
+                                idx += 1;
+                                cur = p3;
+                                continue;
+                            }
+                        }
+                    }
+                }
+            }
+            break;
+        }
+        idx
+    };
+    let jf_target = |pc: usize| -> Option<&TryRegion> {
+        let mut enclosing: Vec<&TryRegion> = regions.iter().chain(guards.iter()).filter(|r| pc >= r.body_start && pc < r.catch_target).collect();
+        enclosing.sort_by_key(|r| std::cmp::Reverse(r.body_start));
+        enclosing.get(chain_index(pc)).copied()
+    };
+    let _ = &innermost;
     // JumpFinally sites per finally target (for EndFinally's return successors)
     let mut jf_sites: BTreeMap<usize, Vec<usize>> = BTreeMap::new();
     for (&pc, ins) in &instrs {
         if ins.name == "JumpFinally" {
-            if let Some(r) = innermost(pc) {
+            if let Some(r) = jf_target(pc) {
                 jf_sites.entry(r.finally_target).or_default().push(pc);
             }
         }
@@ -395,6 +445,11 @@ pub fn analyse_opts(funcs: &[FunctionDump], fi: usize, ops: &OpTable, skip_final
                         }
                     } else {
                         succ.push((r.catch_target, hi + 1));
+                        // an exception raised in the catch block goes on to the finally target, waiting
+                        // off the stack
+                        if !skip_finally_only_exc {
+                            succ.push((r.finally_target, hi));
+                        }
                     }
                 }
             }
@@ -413,7 +468,7 @@ pub fn analyse_opts(funcs: &[FunctionDump], fi: usize, ops: &OpTable, skip_final
             }
             "JumpFinally" => {
                 if need(1, &mut rep) {
-                    match innermost(pc) {
+                    match jf_target(pc) {
                         Some(r) => {
                             let hs = heights_at_push.get(&r.push_pc).cloned().unwrap_or_default();
                             if hs.is_empty() {
@@ -525,9 +580,9 @@ pub fn analyse_opts(funcs: &[FunctionDump], fi: usize, ops: &OpTable, skip_final
         // a newly discovered push height may enable JumpFinally edges of already-visited sites
         if name == "PushExcHandler" {
             let r = regions.iter().find(|r| r.push_pc == pc).unwrap().clone();
-            for (&spc, sins) in instrs.range(r.body_start..r.catch_target) {
+            for (&spc, sins) in instrs.range(r.body_start..r.finally_target) {
                 if sins.name == "JumpFinally" {
-                    if let Some(ir) = innermost(spc) {
+                    if let Some(ir) = jf_target(spc) {
                         if ir.push_pc == pc && rep.reach.contains_key(&spc) {
                             let st = (r.finally_target, h);
                             if r.finally_target < code.len() && seen.insert(st) {
